@@ -7,6 +7,8 @@ R20.a  key <-> coordinates: tiled_matrix_data_key encodes (m, n) as (n + j/nb) *
 R20.b  every <dist>_X_of_key is "decode the key, then <dist>_X_of(desc, m, n)" of the same distribution
        and the same X, with the decoded row and column in that order (or, for the tabular
        distribution, indexes the tile table with the key where X_of indexes it with lmt*n + m).
+R20.d  parsec_matrix_block_cyclic_init counts the locally stored tile rows and tile columns with the same
+       loop, rows and columns exchanged; the number of local tiles is their product.
 R20.c  every distribution installs rank_of, vpid_of, data_of and their _key variants together, all from
        one family.
 """
@@ -31,6 +33,8 @@ def run(ctx):
     ra = ctx.rule('R20.a', 'encoder (n*lmt + m with offsets) and decoders (key % lmt -> row, key / lmt -> column, offsets removed) are inverse', floor=4)
     rb = ctx.rule('R20.b', 'X_of_key = decode then X_of of the same distribution, row then column', floor=15)
     rc = ctx.rule('R20.c', 'each distribution installs the six accessors together from one family', floor=8)
+    rd = ctx.rule('R20.d', '2D block-cyclic local storage count: row loop and column loop are mirror images; total = rows * columns', floor=3)
+    check_counting(ctx, rd)
     units = {}
     for n in UNITS:
         units[n] = ctx.extract(DIR + n)
@@ -165,3 +169,46 @@ def run(ctx):
                           note='%s installs the six %s accessors' % (fname, sorted(fams)[0] if fams else '?'))
     ra.expect(DECODERS <= decoders_found, 'decoders-known', DIR, 'the decoders used by the by-key accessors (%s) must be among the checked ones (%s)' % (sorted(DECODERS), sorted(decoders_found)),
               note='both key decoders checked')
+
+
+# ---------------------------------------------------------------------------------------
+# R20.d  local storage counting of the 2D block-cyclic distribution: the loop that counts the tile rows a
+#        process stores and the loop that counts its tile columns are the same computation with rows and
+#        columns exchanged (rows<->cols, krows<->kcols, rrank<->crank, lmt<->lnt, mb<->nb, i<->j, m<->n).
+#        rank_of / data_of use the same (rows, krows) / (cols, kcols) pairing, so a count made with a
+#        mixed pair reserves a number of slots that does not match the tiles the process owns.
+# ---------------------------------------------------------------------------------------
+SWAP_RC = {'rows': 'cols', 'cols': 'rows', 'krows': 'kcols', 'kcols': 'krows', 'rrank': 'crank', 'crank': 'rrank', 'lmt': 'lnt', 'lnt': 'lmt',
+           'nb_elem_r': 'nb_elem_c', 'nb_elem_c': 'nb_elem_r', 'slm': 'sln', 'sln': 'slm'}
+
+
+def check_counting(ctx, rule):
+    from sa import mirror
+    u = ctx.extract(DIR + 'two_dim_rectangle_cyclic.c')
+    f = u.func('parsec_matrix_block_cyclic_init')
+    if f is None:
+        raise AnalysisBroken('parsec_matrix_block_cyclic_init not found')
+    ctx.functions_analysed.add(f.name)
+    loops = [n for n in f.ast_walk() if f.nodes[n]['k'] == 'while']
+    rows = [n for n in loops if f.expr(f.nodes[n]['cond']).s.endswith('->lmt')]
+    cols = [n for n in loops if f.expr(f.nodes[n]['cond']).s.endswith('->lnt')]
+    if len(rows) != 1 or len(cols) != 1:
+        raise AnalysisBroken('block_cyclic_init: expected one row-counting and one column-counting loop (found %d / %d)' % (len(rows), len(cols)))
+    pn = [p['n'] for p in f.params]
+    def seeds(which):
+        # (temp, i|j, mb|nb, m|n): the parameters that play the same role get the same canonical number
+        return ['temp'] + (['i', 'mb', 'm'] if which == 'r' else ['j', 'nb', 'n'])
+    if not all(x in pn for x in ('i', 'j', 'mb', 'nb', 'm', 'n')):
+        raise AnalysisBroken('block_cyclic_init: parameter names changed, re-review the role table of R20.d')
+    a = mirror.canon_stmt(f, rows[0], None, seeds('r'))
+    b = mirror.canon_stmt(f, cols[0], SWAP_RC, seeds('c'))
+    rule.expect(a == b, 'count:row-col-mirror', f.loc(cols[0]),
+                'the column-counting loop is not the row-counting loop with rows and columns exchanged: %s' % mirror.first_diff(a, b),
+                note='row and column counting loops are mirror images')
+    # the starting tile of each loop
+    st = {s_.rhs.s: s_ for s_ in f.stores('temp') if s_.rhs is not None and s_.rhs.k == 'bin' and s_.rhs.op == '*'}
+    rule.expect(any(re.fullmatch(r'\w+->grid\.rrank \* \w+->grid\.krows', k) for k in st) and any(re.fullmatch(r'\w+->grid\.crank \* \w+->grid\.kcols', k) for k in st),
+                'count:first-tile', f.where(), 'the first tile row / column of a process must be rrank * krows / crank * kcols', note='first tile = rank coordinate * k-cyclicity, per dimension')
+    tot = [s_ for s_ in f.stores() if s_.lhs.s.endswith('->nb_local_tiles')]
+    rule.expect(len(tot) == 1 and re.sub(r'[() ]', '', tot[0].rhs.s) in ('dc->nb_elem_r*dc->nb_elem_c', 'dc->nb_elem_c*dc->nb_elem_r'), 'count:total', tot[0].loc if tot else f.where(),
+                'the number of local tiles must be rows stored * columns stored', note='nb_local_tiles = nb_elem_r * nb_elem_c')
